@@ -347,8 +347,10 @@ inductive Item
   | const (name : Name) (tag : Nat)
   | ty (name : Name) (tag : Nat)
   | imports (paths : List Path)
-  /-- a type path in the signature of an extra function `sp<id>` (declares nothing observable) -/
-  | sigProbe (id : Nat) (p : Path)
+  /-- a reference at module level: a type path in a function signature or a
+      record field, a value / call in a constant's initialiser (the items that
+      carry it have names outside the identifier pool) -/
+  | sigProbe (id : Nat) (k : PKind) (p : Path)
 
 structure Module where
   ident : Name
@@ -437,7 +439,7 @@ def declareItems (s : Nat) : List Item → Graph → Res Graph
     | .err e => .err e
     | .panic x => .panic x
   | .imports _ :: rest, g => declareItems s rest g
-  | .sigProbe _ _ :: rest, g => declareItems s rest g
+  | .sigProbe _ _ _ :: rest, g => declareItems s rest g
 
 /-- `parent.map(|p| modules[p.0].0)` -/
 def parentScopeOf (mods : List Nat) : Option Nat → Res (Option Nat)
@@ -479,12 +481,14 @@ def declareImports : List (Nat × Module) → Graph → Res Graph
     | .err e => .err e
     | .panic x => .panic x
 
-/-- `declare_functions`: signature types are evaluated in the module scope -/
+/-- `declare_types` / `declare_functions` / `constant`: module-level references
+    are resolved from the module scope or an empty scope directly below it,
+    after `declare_imports` -/
 def sigProbes (g : Graph) : List (Nat × Module) → List ProbeRes
   | [] => []
   | (s, m) :: rest =>
     (m.items.filterMap fun
-      | .sigProbe id p => some (id, probe g s .ty p)
+      | .sigProbe id k p => some (id, probe g s k p)
       | _ => none) ++ sigProbes g rest
 
 def checkItems (s : Nat) : List Item → St → Res St
@@ -498,7 +502,7 @@ def checkItems (s : Nat) : List Item → St → Res St
   | .const n _ :: rest, st =>
     let (g', _) := st.g.wrap s (.function n)
     checkItems s rest { st with g := g' }
-  | .sigProbe id _ :: rest, st =>
+  | .sigProbe id _ _ :: rest, st =>
     -- the extra function `sp<id>` gets its function scope like any other
     let (g', _) := st.g.wrap s (.function (1000 + id))
     checkItems s rest { st with g := g' }
